@@ -31,7 +31,9 @@ META = {
             "the consecutive lines meeting [start,end]; rendering an error from a position or a span NEVER panics (all inputs); outside the decidable known "
             "classes the position rendering equals the expected layout (line number, line text, marker under the column, tabs kept) and the span rendering "
             "shows line number, line text, marker column and the last line met (Spec.span_shows). The full statement C10_statement is refuted "
-            "(C10_statement_refuted, C10_K1_refuted, C10_span_refuted: four witnesses K1..K4, replayed on the real code every run and printed as KNOWN-FINDING).",
+            "(C10_statement_refuted, C10_K1_refuted, C10_span_refuted: four witnesses K1..K4, replayed on the real code every run and printed as KNOWN-FINDING). "
+            "The theorem is proved for both models of Error::new_from_span (flag fx: as shipped / with fixes/C10-1-continued-line-visualize.patch, chosen by "
+            "probing the tree); with the patch the class K2 is empty (C10_K2_empty_when_patched) and K1, K3, K4 remain (C10_span_refuted_patched).",
     "note": "Trusted: Coq kernel; extraction (ExtrOcamlBasic only); harness/runner; str/char/Vec/partition_point/format! width semantics modelled by "
             "documented meaning; CustomError message only (ParsingError message composition belongs to C08); display width of wide chars out of scope.",
     "design_ref": "DESIGN.md section 3, C10",
@@ -40,8 +42,19 @@ META = {
 }
 
 
+FX = "fx=0"   # model flag handed to the runner; set by probe() in run()
+
+
+def probe(hbin):
+    """Which Error::new_from_span is in the tree: as shipped (0) or with fixes/C10-1-continued-line-visualize.patch (1)?
+    Decided by running the K2 witness on the real code."""
+    rc, out = sh("%s probe" % hbin, timeout=60)
+    m = re.search(r"fix_continued=(\d)", out)
+    return int(m.group(1)) if m else 0
+
+
 def run_cases(hbin, runner, cmds, timeout=3000):
-    outs = run_pipeline(["%s %s | %s" % (hbin, c, runner) for c in cmds], timeout=timeout)
+    outs = run_pipeline(["%s %s | %s %s" % (hbin, c, runner, FX) for c in cmds], timeout=timeout)
     mism, stats = [], {}
     for (rc, out), c in zip(outs, cmds):
         m, s, other = parse_runner_output(out)
@@ -54,7 +67,7 @@ def run_cases(hbin, runner, cmds, timeout=3000):
 
 
 def one_case(hbin, runner, case, showknown=False):
-    rc, out = sh("%s case '%s' | %s %s" % (hbin, case.replace("'", "'\\''"), runner, "showknown" if showknown else ""), timeout=60)
+    rc, out = sh("%s case '%s' | %s %s %s" % (hbin, case.replace("'", "'\\''"), runner, FX, "showknown" if showknown else ""), timeout=60)
     m, s, _ = parse_runner_output(out)
     return m, s
 
@@ -81,7 +94,7 @@ def minimise(hbin, runner, case, kind):
         improved = False
         for i in range(len(cur)):
             cand = cur[:i] + cur[i + 1:]
-            rc, out = sh("%s one '%s' | %s" % (hbin, "".join(cand).replace("'", "'\\''"), runner), timeout=120)
+            rc, out = sh("%s one '%s' | %s %s" % (hbin, "".join(cand).replace("'", "'\\''"), runner, FX), timeout=120)
             m, _, _ = parse_runner_output(out)
             m = [x for x in m if x["kind"] == kind]
             if m:
@@ -119,6 +132,11 @@ def run(tier, seed, replay=None):
         res.violation("OCaml runner does not build", {"theorem_or_correspondence": "C10 extraction", "log": oout[-3000:]}, no_failing_input=True)
         return res.finish()
     hbin = os.path.join(bdir, "c10")
+    global FX
+    fixed_continued = probe(hbin)
+    FX = "fx=%d" % fixed_continued
+    log("C10: implementation state (probe): Error::new_from_span continued line %s -> model flag %s" %
+        ("repaired (C10-1 patch)" if fixed_continued else "as shipped", FX))
 
     if replay:
         case = json.load(open(replay)).get("case", "")
@@ -214,6 +232,7 @@ def run(tier, seed, replay=None):
         "mismatches": len(mism),
         "known_class_cases": stats.get("known_class", 0),
         "known_witnesses_reproduced": reproduced,
+        "model_flags": {"fix_continued": fixed_continued},
     })
     res.assumptions = ["error variant CustomError with a fixed message (and with_path on position errors); ParsingError message text is C08's",
                        "Pair::line_col exercised through PairsBuilder (whole-input index) and through pest::state (index truncated at the last token)",
